@@ -143,7 +143,34 @@ def tokio_model_needed(crate):
     return crate in ("turmoil",) and (VERIF / "models" / "tokio").exists()
 
 
-def make_overlay(root: Path, crates_needed, use_real_indexmap=False, tokio_model=False):
+PATH_IMPORT = "use std::path::{Path, PathBuf};"
+
+
+def apply_path_model(root: Path):
+    """turmoil-fs only: std::path -> /verif/models/path (inline-storage model) under cfg(kani).
+
+    std cannot be replaced with [patch], so the ONE import line of crates/turmoil-fs/src/lib.rs is
+    rewritten in the scratch copy (same line, nothing moves) and the std/tokio shim modules - thin
+    wrappers that are not part of any fs claim and are written against std::path - are compiled out
+    under cfg(kani). If the import line is not found the harnesses fail to compile -> exit 2."""
+    lib = root / "crates" / "turmoil-fs" / "src" / "lib.rs"
+    pm = VERIF / "models" / "path" / "verif_path.rs"
+    if not lib.exists() or not pm.exists():
+        return
+    t = lib.read_text()
+    if PATH_IMPORT not in t:
+        return
+    dst = root / "crates" / "turmoil-fs" / "src" / "verif_path.rs"
+    shutil.copy(pm, dst)
+    t = t.replace(PATH_IMPORT,
+                  "#[cfg(not(any(kani, verif_path)))] use std::path::{Path, PathBuf}; "
+                  "#[cfg(any(kani, verif_path))] use crate::verif_path::{Path, PathBuf};", 1)
+    t = t.replace("pub mod shim;", "#[cfg(not(any(kani, verif_path)))] pub mod shim;", 1)
+    t += "\n#[cfg(any(kani, verif_path))] #[path = \"%s\"] pub mod verif_path;\n" % dst
+    lib.write_text(t)
+
+
+def make_overlay(root: Path, crates_needed, use_real_indexmap=False, tokio_model=False, path_model=False):
     """Copy crates from /repo working tree, attach harness modules, write workspace files."""
     if root.exists():
         shutil.rmtree(root)
@@ -196,6 +223,8 @@ def make_overlay(root: Path, crates_needed, use_real_indexmap=False, tokio_model
             t = f.read_text()
             if "#[cfg(test)]" in t:
                 f.write_text(t.replace("#[cfg(test)]", "#[cfg(any())]"))
+    if path_model:
+        apply_path_model(root)
     members = ", ".join('"crates/%s"' % c for c in crates_needed)
     patch = []
     if not use_real_indexmap:
@@ -536,7 +565,7 @@ def main():
     # (DESIGN.md 2.7 rung 6), the other crates against the real tokio
     groups = {}
     for h in hs:
-        g = "core" if h["crate"] == "turmoil" else "leaf"
+        g = "core" if h["crate"] == "turmoil" else ("fsm" if h["crate"] == "turmoil-fs" else "leaf")
         groups.setdefault(g, []).append(h)
         h["overlay"] = str(overlay / g)
     try:
@@ -553,7 +582,8 @@ def main():
                 if g == "leaf" and "turmoil-io-uring" in members:
                     members.add("turmoil-fs")
                 make_overlay(overlay / g, sorted(members), use_real_indexmap=args.real_indexmap,
-                             tokio_model=(g == "core" and tokio_model_needed("turmoil")))
+                             tokio_model=(g == "core" and tokio_model_needed("turmoil")),
+                             path_model=(g == "fsm"))
         finally:
             if lockf:
                 fcntl.flock(lockf, fcntl.LOCK_UN)
